@@ -763,6 +763,29 @@ or control character; distinct by (position, backend, name)."
             &check,
         );
     }
+    // every name length up to a bound at rotating positions: a quote character at the end, every ninth character, and a dense mix
+    let max_name: u64 = ctx.tier.pick(400, 2_000);
+    ctx.run_indexed(
+        "lengths",
+        max_name * 3 * 3,
+        &|i| {
+            let d = DIALECTS[(i % 3) as usize];
+            let shape = (i / 3) % 3;
+            let len = 1 + (i / 9) as usize;
+            let q = if d == Dialect::Mysql { '`' } else { '"' };
+            let name: String = match shape {
+                0 => (0..len).map(|k| if k + 1 == len { q } else { 'n' }).collect(),
+                1 => (0..len).map(|k| if k % 9 == 8 { q } else if k % 9 == 4 { 'é' } else { 'm' }).collect(),
+                _ => {
+                    let units = ['a', q, '\\', 'Т', '😀', ' ', '.', '\''];
+                    (0..len).map(|k| units[(k * 3 + len) % 8]).collect()
+                }
+            };
+            let poss: Vec<Pos> = ALL_POS.iter().copied().filter(|p| applicable(*p, d)).collect();
+            Case { pos: poss[len % poss.len()], dialect: d, name }
+        },
+        &check,
+    );
     let n = ctx.tier.pick(150_000, 3_000_000);
     ctx.run_proptest("random", n, &case_strategy, &check);
     run_derived(ctx);
